@@ -1,9 +1,11 @@
 package checks
 
 import (
+	"bytes"
 	"context"
 	"encoding/json"
 	"fmt"
+	"net/http/httptest"
 	"sort"
 	"strings"
 	"sync"
@@ -11,6 +13,7 @@ import (
 
 	"github.com/indexsupply/shovel/shovel"
 	"github.com/indexsupply/shovel/shovel/config"
+	"github.com/indexsupply/shovel/shovel/web"
 	"github.com/indexsupply/shovel/wpg"
 	"github.com/jackc/pgx/v5/pgxpool"
 
@@ -48,7 +51,7 @@ func init() {
 		CaseTimeoutS:     90,
 		MaxProcs:         8,
 		MinObs: func(tier string) map[string]int64 {
-			return map[string]int64{"startups": 50, "restarts": 60, "task_sets_compared": 80, "events": 3000, "unknown_source_cases": 5, "db_entries": 30, "name_clash_cases": 10, "restarts_at_hook_points": 15}
+			return map[string]int64{"startups": 50, "restarts": 60, "task_sets_compared": 80, "events": 3000, "unknown_source_cases": 5, "db_entries": 30, "name_clash_cases": 10, "restarts_at_hook_points": 15, "dashboard_submissions": 8}
 		},
 	})
 }
@@ -68,8 +71,9 @@ type c20IG struct {
 	Refs    []model.SrcRef
 	InFile  bool
 	InDB    bool
-	// file and db variants differ in start when both exist
-	DBStart uint64
+	// file and db variants differ in start (and possibly in the enabled flag) when both exist
+	DBStart   uint64
+	DBEnabled bool
 }
 
 type c20Event struct {
@@ -243,6 +247,10 @@ func c20Run(c *vk.Case) {
 			}
 		}
 		ig.DBStart = uint64(r.Range(6, 9))
+		ig.DBEnabled = ig.Enabled
+		if ig.InFile && ig.InDB && r.Bool() {
+			ig.DBEnabled = !ig.Enabled // e.g. disabled in the file, enabled in the database: the file must still win
+		}
 		igs = append(igs, ig)
 	}
 	if clash {
@@ -250,6 +258,9 @@ func c20Run(c *vk.Case) {
 	}
 	mkDecl := func(ig *c20IG, db bool) *model.Decl {
 		d := &model.Decl{Name: ig.Name, Enabled: ig.Enabled, Table: ig.Table, ColTypes: map[string]string{}, InFilter: map[string]model.Filter{}}
+		if db {
+			d.Enabled = ig.DBEnabled
+		}
 		d.Block = []model.BlockField{{Name: "tx_hash", Column: "tx_hash", ColType: "bytea"}}
 		for _, ref := range ig.Refs {
 			if db && ig.InFile {
@@ -324,6 +335,34 @@ func c20Run(c *vk.Case) {
 		c.Obs("db_entries", 1)
 		return true
 	}
+	// storeViaDashboard submits a complete integration to the real /save-integration handler,
+	// which stores it and restarts the manager itself.
+	storeViaDashboard := func(mgr *shovel.Manager, ig *c20IG) (int, string, any) {
+		d := mkDecl(ig, true)
+		b, _ := json.Marshal(map[string]any{"integrations": []any{d.ConfigJSON()}})
+		var tmp config.Root
+		if err := json.Unmarshal(b, &tmp); err != nil {
+			return 0, "", nil
+		}
+		if err := config.ValidateFix(&tmp); err != nil {
+			return 0, "", nil
+		}
+		if err := tmp.Integrations[0].Table.Migrate(ctx, pool); err != nil {
+			return 0, "", nil
+		}
+		cj, _ := json.Marshal(tmp.Integrations[0])
+		h := web.New(mgr, &conf, pool)
+		rec := httptest.NewRecorder()
+		req := httptest.NewRequest("POST", "/save-integration", bytes.NewReader(cj))
+		var pan any
+		func() {
+			defer func() { pan = recover() }()
+			h.SaveIntegration(rec, req)
+		}()
+		c.Obs("db_entries", 1)
+		c.Obs("dashboard_submissions", 1)
+		return rec.Code, rec.Body.String(), pan
+	}
 	storeSrc := func(s *c20Src) bool {
 		// a database copy of a clashing source differs (chain id): the file must win
 		cid := s.ChainID
@@ -344,7 +383,7 @@ func c20Run(c *vk.Case) {
 	}
 	plantedInDB := false
 	for _, ig := range igs {
-		plant := unknownIn == "db" && !plantedInDB && !ig.InFile && ig.Enabled // (a file copy would win and has no unknown reference)
+		plant := unknownIn == "db" && !plantedInDB && !ig.InFile && ig.DBEnabled // (a file copy would win and has no unknown reference)
 		if ig.InDB && !storeIG(ig, plant) {
 			return
 		}
@@ -359,7 +398,11 @@ func c20Run(c *vk.Case) {
 	expected := func() []string {
 		var res []string
 		for _, ig := range igs {
-			if !ig.Enabled {
+			en := ig.Enabled // the file copy wins, with its enabled flag
+			if !ig.InFile {
+				en = ig.DBEnabled
+			}
+			if !en {
 				continue
 			}
 			for _, ref := range ig.Refs {
@@ -486,6 +529,29 @@ func c20Run(c *vk.Case) {
 				st := uint64(r.Range(1, 5))
 				ig.Refs = []model.SrcRef{{Name: srcs[0].Name, Start: st, Stop: st + uint64(r.Range(12, 25))}}
 				ig.DBStart = st
+				ig.DBEnabled = true
+				if r.Bool() {
+					// through the dashboard: the handler stores the integration and restarts the manager itself
+					if !settled() {
+						c.Inconclusive("a run never passed its start-up point")
+						return
+					}
+					code, body, pan := storeViaDashboard(mgr, ig)
+					igs = append(igs, ig)
+					timing = append(timing, "dashboard-submission")
+					c.Obs("restarts", 1)
+					if pan != nil {
+						c.Violate("panic:web.SaveIntegration", merge(detail, map[string]any{"panic": fmt.Sprint(pan)}), "SaveIntegration panicked: %v", pan)
+						return
+					}
+					if code != 200 {
+						c.Violate("dashboard-submission-failed", merge(detail, map[string]any{"status": code, "body": body}), "/save-integration answered %d: %s", code, body)
+						return
+					}
+					startups++
+					compare("after a dashboard submission of " + ig.Name)
+					break
+				}
 				if !storeIG(ig, false) {
 					return
 				}
